@@ -265,15 +265,22 @@ def run(prop: str, tier: str) -> int:
         r1 = tlc.run("UrlMC", "UrlMC_asis.cfg", cache=True, timeout=600)
         tlc.must_violate(r1, ["SpansAgree"], "UrlMC[asis]")
         res.stage("UrlMC[Variant=asis]", dict(r1.summary(), expected_violation="SpansAgree"))
-    res.assumptions += ["the table of registered top-level domains shipped in domains.py is trusted",
+    res.assumptions += ["'registered top-level domain' means the table as shipped at the pinned commit (spec/tlds_pinned.json, 1,479 entries); "
+                        "a legitimate update of domains.py needs that snapshot updated with it",
                         "regular-expression languages (where an indicator starts and stops in free text) are sampled, not modelled",
                         "IPv6 hosts and hosts that keep a percent-escape after normalisation are outside the judged domain (counted as n/a)"]
     rng = drivers.rng_for("net:" + prop)
     md = Multidecoder()
     work = scratch("net")
     tld_file = os.path.join(work, "tlds.json")
+    # "registered" = the table as shipped at the pinned commit (spec/tlds_pinned.json); offline there is no other oracle.
+    # TLC judges with the pinned table; where the tree's table differs, the difference itself is turned into inputs.
+    with open(os.path.join(tlc.SPEC, "tlds_pinned.json")) as f:
+        pinned = {t.encode() for t in json.load(f)}
     with open(tld_file, "w") as f:
-        json.dump([b2l(t) for t in sorted(TOP_LEVEL_DOMAINS)], f)
+        json.dump([b2l(t) for t in sorted(pinned)], f)
+    table = {bytes(t) for t in TOP_LEVEL_DOMAINS}
+    tld_added, tld_removed = sorted(table - pinned)[:40], sorted(pinned - table)[:40]
     events: list[dict] = []
     seen: set[str] = set()
 
@@ -286,11 +293,16 @@ def run(prop: str, tier: str) -> int:
     inputs = list(drivers.repo_literals()) + list(net_soup(rng, 800 if tier == "quick" else 15000))
     inputs += list(drivers.token_soup(rng, 200 if tier == "quick" else 3000))
     inputs += context_urls() + host_shapes()
+    for t in tld_added:        # entries the pinned table does not have: whatever is reported under them is judged against the pinned table
+        inputs += [b"see portal.members." + t.lower() + b" now", b"http://www.example." + t.lower() + b"/x", b"mail admin@corp-mail." + t.lower() + b" now"]
     if prop == "C11":
         from . import helpers_stage
 
         helpers_stage.run(res, "brace", tier)
-        for i, inst in enumerate(instances(rng, tier)):
+        insts = instances(rng, tier)
+        for t in tld_removed:  # entries of the pinned table that the tree's table lost: names under them are still domains
+            insts.append({"kind": "inst", "what": "domain", "blob": b2l(b"example-host." + t.lower()), "neutral": True})
+        for i, inst in enumerate(insts):
             pre, suf = PRE[i % len(PRE)], SUF[(i // len(PRE)) % len(SUF)]
             blob = bytes(inst["blob"])
             if inst["what"] == "pe":
